@@ -51,7 +51,15 @@ class Report:
             json.dump(ev, f, indent=1, sort_keys=True)
         for k in self.known:
             print(f"KNOWN-FINDING: property={self.prop} {k}")
-        for path, no_input, summary in self.violations:
+        with_input = [v for v in self.violations if not v[1]]
+        shown = self.violations
+        if with_input:
+            # a concrete failing input was found: it is the replay; broken obligations are listed as comments
+            for path, no_input, summary in self.violations:
+                if no_input:
+                    print(f"# also: {summary} (see {path})")
+            shown = with_input
+        for path, no_input, summary in shown:
             tail = ' no-failing-input-found' if no_input else ''
             print(f"# {summary}")
             print(f"VIOLATION property={self.prop} replay={path}{tail}")
@@ -107,7 +115,7 @@ def theorem_names(prop_file):
     # drop block comments and line comments
     src_nc = re.sub(r'/-.*?-/', '', src, flags=re.S)
     src_nc = re.sub(r'--.*', '', src_nc)
-    return re.findall(r'^theorem\s+([A-Za-z0-9_\.]+)', src_nc, flags=re.M), src_nc
+    return re.findall(r"^theorem\s+([A-Za-z0-9_\.?'!]+)", src_nc, flags=re.M), src_nc
 
 def lean_sources_for(module_file):
     """all project files transitively imported by module_file"""
@@ -154,7 +162,7 @@ def lean_obligations(prop, expected, report, thorough=False):
         if rc != 0:
             problems.append(f"axiom audit failed: {text[-2000:]}")
         per = {}
-        for m in re.finditer(r"'Unimock\.([\w\.]+)' (does not depend on any axioms|depends on axioms: \[([^\]]*)\])", text):
+        for m in re.finditer(r"'Unimock\.([\w\.?!']+)' (does not depend on any axioms|depends on axioms: \[([^\]]*)\])", text):
             ax = set(a.strip() for a in (m.group(3) or '').split(',') if a.strip())
             per[m.group(1)] = ax
         for t in names:
